@@ -7,5 +7,5 @@ From KV Require Import Model.ConnMux Model.TransportPool.
 Extraction Language OCaml.
 Extraction "c06_model.ml"
   wrap32 init step run thr outcome_code own_frame all_own set_inflight set_wire
-  pinit pstep prun cn rq q_outcome q_own lookup_ord mon_ids mon_fail mon_delivery mon_cut mon_nohang
+  pinit pstep prun cn rq q_outcome q_own lookup_ord mon_ids mon_fail mon_delivery mon_cut mon_nohang mon_split mon_pure split_results
   N.succ.  (* kvio.ml.in needs the type n *)
